@@ -1689,6 +1689,44 @@ func c13FixedCases(run *vlib.Run) {
 		d.lookups(0)
 	})
 
+	// Fixed 5: the longest paths there are. A chain of 262 nested scopes; paths of 254 and 255 segments (the most a
+	// MultiNamePath can announce), spelled with the multi-name prefix and as plain runs, behind 0-4 parent prefixes.
+	run.OneCase(vlib.FixedBase+5, func(c *vlib.Case) {
+		d := c13NewDriver(c, run)
+		c.Begin("chain of 262 nested scopes; 254- and 255-segment paths behind 0-4 parent prefixes")
+		if !d.root() {
+			return
+		}
+		cur := uint32(0)
+		for i := 0; i < 262; i++ {
+			s, ok := d.opNew(c13KindNamed, c13CommonNames[i%2], i%3 == 0)
+			if !ok || !d.opAppend(cur, s) {
+				return
+			}
+			cur = s
+		}
+		var exprs [][]byte
+		for carets := 0; carets <= 4; carets++ {
+			for parity := 0; parity < 2; parity++ {
+				for _, nseg := range []int{254, 255} {
+					var segs []byte
+					for i := 0; i < nseg; i++ {
+						segs = append(segs, c13CommonNames[(i+parity)%2][:]...)
+					}
+					pre := make([]byte, carets)
+					for i := range pre {
+						pre[i] = '^'
+					}
+					exprs = append(exprs, append(append(append([]byte(nil), pre...), 0x2f, byte(nseg)), segs...), append(append([]byte(nil), pre...), segs...))
+				}
+			}
+		}
+		save := c13FixedExprs
+		c13FixedExprs = exprs
+		defer func() { c13FixedExprs = save }()
+		d.lookups(0)
+	})
+
 	// Fixed 4 (observation, not a verdict of this property): the trees the
 	// parser builds from the shipped tables pass c13CheckTreeInvariants. This
 	// is what C11/C12 rely on when they reuse the checker; here it only guards
